@@ -188,8 +188,13 @@ def argument_mutations(func):
                 if k.arg == "out":
                     for p in sorted(al.expr_aliases(k.value, st)):
                         out.append((p, st, "`out=%s` writes into (a view of) the argument `%s`" % (norm(k.value), p)))
-            if isinstance(n.func, ast.Attribute) and n.func.attr in MUTATORS and isinstance(parent(n), ast.Expr):
+            # (value-returning mutators - pop, popitem, setdefault - change their object wherever the call stands; **kwargs / *args are
+            # containers made for this call, not the caller's)
+            own = {a_.arg for a_ in (func.node.args.vararg, func.node.args.kwarg) if a_ is not None}
+            if isinstance(n.func, ast.Attribute) and n.func.attr in MUTATORS and (isinstance(parent(n), ast.Expr) or n.func.attr in ("pop", "popitem", "setdefault")):
                 for p in sorted(al.expr_aliases(n.func.value, st)):
+                    if p in own:
+                        continue
                     out.append((p, st, "`%s` mutates (a view of) the argument `%s`" % (norm(n)[:50], p)))
     # de-duplicate
     seen = set()
